@@ -402,12 +402,28 @@ func runC17(r *Run) {
 			cleanup = func() { client.Close() }
 			desc = "registry datadog"
 		}
+		// registration tags as a caller builds them: a slice with room to grow, handed over with tags...; samples
+		// carry tags of their own now and then
+		regTags := make([]string, 1, 4)
+		regTags[0] = "env:sim"
+		sampleTags := func(x int) []string {
+			if x%2 == 0 {
+				return nil
+			}
+			return []string{fmt.Sprintf("k:%d", x%5)}
+		}
 		ops = []c17op{
-			{"RegisterDistribution+AddSample", true, func(tk *Task, x int) { reg.RegisterDistribution(fmt.Sprintf("d%d", x%3)).AddSample(1) }},
-			{"RegisterTiming+AddSample", true, func(tk *Task, x int) { reg.RegisterTiming(fmt.Sprintf("t%d", x%3)).AddSample(2) }},
-			{"RegisterCount+AddSample", true, func(tk *Task, x int) { reg.RegisterCount(fmt.Sprintf("c%d", x%3)).AddSample(1) }},
+			{"RegisterDistribution+AddSample", true, func(tk *Task, x int) {
+				reg.RegisterDistribution(fmt.Sprintf("d%d", x%3), regTags...).AddSample(1, sampleTags(x)...)
+			}},
+			{"RegisterTiming+AddSample", true, func(tk *Task, x int) {
+				reg.RegisterTiming(fmt.Sprintf("t%d", x%3), regTags...).AddSample(2, sampleTags(x)...)
+			}},
+			{"RegisterCount+AddSample", true, func(tk *Task, x int) {
+				reg.RegisterCount(fmt.Sprintf("c%d", x%3), regTags...).AddSample(1, sampleTags(x)...)
+			}},
 			{"RegisterGauge", true, func(tk *Task, x int) {
-				reg.RegisterGauge(fmt.Sprintf("g%d", x%3), func() (float64, bool) { return 1, true })
+				reg.RegisterGauge(fmt.Sprintf("g%d", x%3), func() (float64, bool) { return 1, true }, regTags...)
 			}},
 			{"Start", true, func(tk *Task, x int) { reg.Start() }},
 			{"Stop", true, func(tk *Task, x int) { reg.Stop() }},
